@@ -18,7 +18,8 @@ Abstract document (plain picklable literals)::
     O     = {"k": "outline",  ... as S ..., "examples": [{"tags": [..], "name": str, "table": TABLE | None}]}
     R     = {"k": "rule", "tags": [..], "name": str, "desc": [str], "bg": BG | None, "items": [S | O]}
     STEP  = (kind, name, arg)     kind in given/when/then/and/but/star
-    arg   = None | ("text", quotes, [content lines]) | ("table", [heading cells], [[row cells], ..])
+    arg   = None | ("text", quotes, [content lines][, close]) | ("table", [heading cells], [[row cells], ..])
+            (close: column of the closing quotes relative to the opening ones: 0, +n, -n or "col0")
             (cells are written raw, e.g. "x\\|y"; the expected cell is the unescaped, stripped text)
 
 Layout (all optional)::
@@ -118,11 +119,14 @@ class _Out(object):
         for extra in self.insert.get(self.base, ()):
             self.lines.append(extra)
 
-    def emit(self, level, text, kind, info=None):
+    def emit(self, level, text, kind, info=None, raw=False):
         if self._in_doc:
             self.indoc.add(self.base)
         self._flush_inserts()
-        self.lines.append((self.unit * level + text) if text != u"" or kind != "doc_line" else u"")
+        if raw:
+            self.lines.append(text)
+        else:
+            self.lines.append((self.unit * level + text) if text != u"" or kind != "doc_line" else u"")
         self.base += 1
         self.ann.append((kind, info))
         return len(self.lines)
@@ -206,12 +210,22 @@ def _steps(out, level, steps, ctx, owner):
              "type": sorted(types)[0] if len(types) == 1 else AnyOf(sorted(types)),
              "_akind": kind, "_alias": alias}
         if arg is not None and arg[0] == "text":
-            _, quotes, content = arg
+            quotes, content = arg[1], arg[2]
+            close = arg[3] if len(arg) > 3 else 0
             ln = out.emit(level + 1, quotes, "doc_open", (owner, i))
             out._in_doc = True
             for c in content:
                 out.emit(level + 1, c, "doc_line")
-            out.emit(level + 1, quotes, "doc_close")
+            # the closing delimiter may stand at any column: same as the opening one (0), deeper (+n blanks),
+            # shallower (-n characters of the indentation) or at column 0 ("col0")
+            prefix = out.unit * (level + 1)
+            if close == "col0":
+                prefix = u""
+            elif close > 0:
+                prefix += u" " * close
+            elif close < 0:
+                prefix = prefix[:max(0, len(prefix) + close)]
+            out.emit(level + 1, prefix + quotes, "doc_close", raw=True)
             out._in_doc = False
             e["text"] = {"kind": "text", "value": u"\n".join(content), "line": ln, "ctype": u"text/plain"}
         elif arg is not None and arg[0] == "table":
